@@ -1,3 +1,88 @@
-/- C05 — property theorems: see below (being extended). -/
+/-
+  C05 — thread IDs are unique among live threads, in range and stable.
+  IDManager model (`Model/IdMgr.lean`): any capacity `n ≥ 1`, any number of threads (more than `n`
+  included), any probe start, any interleaving of the probing steps (`load`, then `exchange`).
+-/
+import CppUtil.Proofs.IdMgrInv
 import CppUtil.Gen.Thread
-import CppUtil.Model.TClient
+
+namespace CppUtil.Props
+open CppUtil CppUtil.IdMgr
+
+/-- **in range**: whatever ID a thread holds (or probes) is below the capacity -/
+theorem c05_in_range (n : Nat) (hn : 0 < n) (ef : Bool) (nthreads : Nat) (acts : List Act) (s : St)
+    (h : run n ef (mkSt n nthreads) acts = some s) (t id : Nat) (ht : s.threads[t]? = some (.owner id)) :
+    id < n :=
+  (inv_run hn (inv_init n nthreads ef) h).pos _ (List.mem_of_getElem? ht) id rfl
+
+/-- **unique**: two threads that are both running user code (neither has begun its exit cleanup)
+    never hold the same ID -/
+theorem c05_unique (n : Nat) (hn : 0 < n) (ef : Bool) (nthreads : Nat) (acts : List Act) (s : St)
+    (h : run n ef (mkSt n nthreads) acts = some s) (t1 t2 id : Nat) (hne : t1 ≠ t2)
+    (h1 : s.threads[t1]? = some (.owner id)) (h2 : s.threads[t2]? = some (.owner id)) : False := by
+  have hI := inv_run hn (inv_init n nthreads ef) h
+  have hid : id < n := hI.pos _ (List.mem_of_getElem? h1) id rfl
+  -- removing t1 (set it to `dead`) lowers the reservation count by one, and t2 still counts
+  have hc := resCount_set ef s t1 (.owner id) .dead id h1
+  have h2' : (setT s t1 .dead).threads[t2]? = some (.owner id) := by
+    simp only [setT]; rw [List.getElem?_set_ne hne]; exact h2
+  have hpos : 0 < resCount ef (setT s t1 .dead) id := by
+    unfold resCount
+    apply List.countP_pos_iff.mpr
+    exact ⟨_, List.mem_of_getElem? h2', by simp [reserves]⟩
+  have := hI.cnt id hid
+  simp [reserves] at hc
+  split at this <;> omega
+
+/-- **stable**: a thread keeps its ID in every transition except the beginning of its own exit -/
+theorem c05_stable (n : Nat) (ef : Bool) (s s' : St) (a : Act) (e : Option Ev) (t id : Nat)
+    (ht : s.threads[t]? = some (.owner id)) (h : step n ef s a = some (s', e)) :
+    s'.threads[t]? = some (.owner id) ∨ (∃ t', a = .beginExit t' ∧ t' = t) := by
+  have other : ∀ (t' : Nat) (l : TLoc) (sl al : List Bool), t' ≠ t →
+      ({ slots := sl, threads := s.threads.set t' l, alive := al } : St).threads[t]? = some (.owner id) := by
+    intro t' l sl al hne
+    show (s.threads.set t' l)[t]? = _
+    rw [List.getElem?_set_ne hne]; exact ht
+  cases a with
+  | begin t' st =>
+    simp only [step] at h
+    split at h
+    · rename_i ht'
+      simp only [Option.some.injEq, Prod.mk.injEq] at h
+      left; rw [← h.1]
+      by_cases hh : t' = t
+      · subst hh; rw [ht] at ht'; cases ht'
+      · exact other t' _ _ _ hh
+    · cases h
+  | beginExit t' =>
+    by_cases hh : t' = t
+    · right; exact ⟨t', rfl, hh⟩
+    · left
+      simp only [step] at h
+      split at h
+      · simp only [Option.some.injEq, Prod.mk.injEq] at h
+        rw [← h.1]; exact other t' _ _ _ hh
+      · simp only [Option.some.injEq, Prod.mk.injEq] at h
+        rw [← h.1]; exact other t' _ _ _ hh
+      · cases h
+  | atom t' =>
+    left
+    by_cases hh : t' = t
+    · subst hh
+      simp only [step, ht] at h
+      cases h
+    · simp only [step] at h
+      split at h
+      · split at h <;> (simp only [Option.some.injEq, Prod.mk.injEq] at h; rw [← h.1]; exact other t' _ _ _ hh)
+      · split at h <;> (simp only [Option.some.injEq, Prod.mk.injEq] at h; rw [← h.1]; exact other t' _ _ _ hh)
+      · split at h <;> (simp only [Option.some.injEq, Prod.mk.injEq] at h; rw [← h.1]; exact other t' _ _ _ hh)
+      · split at h <;> (simp only [Option.some.injEq, Prod.mk.injEq] at h; rw [← h.1]; exact other t' _ _ _ hh)
+      · cases h
+
+/-- non-vacuity: capacity 2, three threads with the same probe start (full collision): two become
+    owners of different IDs, the third keeps probing -/
+example : ∃ s, run 2 true (mkSt 2 3)
+    [.begin 0 0, .begin 1 0, .begin 2 0, .atom 0, .atom 1, .atom 0, .atom 1, .atom 1, .atom 1, .atom 2] = some s ∧
+    s.threads[0]? = some (.owner 1) ∧ s.threads[1]? = some (.owner 0) := ⟨_, rfl, rfl, rfl⟩
+
+end CppUtil.Props
